@@ -14,6 +14,9 @@ Hypothesis Hmt : 1 <= tc_miu tc /\ tc_miu tc + 3 + b2z (is_some (tc_did tc)) + b
 Hypothesis Hmi : 1 <= ic_miu ic /\ ic_miu ic + 3 + b2z (is_some (ic_did ic)) + b2z (is_some (ic_nad ic)) <= 254.
 Hypothesis Hfuel : Z.max 0 timeout < Z.of_nat fuel.
 
+(* scripts on which every protocol step succeeds: no fault at all, or isolated single faults *)
+Definition Good (sc : list (fate * fate)) : Prop := (sc = [] /\ 1 <= timeout) \/ (Sparse sc /\ 2 <= timeout).
+
 (* one call of send_dep_req_recv_dep_res for a request the target is ready to accept *)
 Lemma srr_call p w out w' t0 t1 d r :
   req_ok ic d -> (fmt d = F_INF \/ fmt d = F_MORE \/ fmt d = F_ACK) ->
@@ -22,18 +25,25 @@ Lemma srr_call p w out w' t0 t1 d r :
   srr fuel ic tc p d 1 timeout w = (out, w') ->
   (w_t w' = t0 \/ w_t w' = awake t0 \/ w_t w' = t1) /\
   ((out = Ok r /\ w_t w' = t1) \/ (exists e, out = Err e /\ comm e)) /\
-  (w_script w = [] -> 1 <= timeout -> fmt r <> F_NAK -> out = Ok r /\ w_script w' = []).
+  (Good (w_script w) -> (fmt r = F_INF \/ fmt r = F_MORE \/ fmt r = F_ACK) -> out = Ok r /\ Good (w_script w')).
 Proof.
   intros Hreq Hf HI Hpos Hnew Hfirst Hacc Hw Hp H.
   assert (Hin : InS t0 t1 (w_t w)) by (left; exact Hw).
   destruct (srr_safe ic tc H106 Hdid Hmt Hmi t0 t1 d r Hreq Hf HI Hpos Hnew Hfirst Hacc fuel p 1 timeout w out w' Hin Hp ltac:(lia) H) as (A & B).
   split; [exact A|]. split.
   - destruct B as [B|[B|[_ B]]]; [left; exact B | right; exact B | lia].
-  - intros Hs Hto Hn.
-    destruct (srr_nofault ic tc H106 Hdid Hmt Hmi t0 t1 d r Hreq Hf HI Hpos Hnew Hfirst Hacc fuel p 1 timeout w Hin) as (w2 & E & _ & E2 & _);
-      [rewrite Hs; reflexivity | lia | exact Hto | lia | exact Hn|].
-    rewrite E in H. injection H as <- <-. split; [reflexivity|]. rewrite E2, Hs. reflexivity.
+  - intros [[Hs Hto]|[Hs Hto]] Hn.
+    + destruct (srr_nofault ic tc H106 Hdid Hmt Hmi t0 t1 d r Hreq Hf HI Hpos Hnew Hfirst Hacc fuel p 1 timeout w Hin) as (w2 & E & _ & E2 & _);
+        [rewrite Hs; reflexivity | lia | exact Hto | lia | unfold F_INF, F_MORE, F_ACK, F_NAK in *; lia|].
+      rewrite E in H. injection H as <- <-. split; [reflexivity|]. left. rewrite E2, Hs. auto.
+    + destruct (srr_sparse ic tc H106 Hdid Hmt Hmi t0 t1 d r Hreq Hf HI Hpos Hnew Hfirst Hacc fuel p timeout w (or_introl Hw) Hp Hs Hto ltac:(lia) Hn) as (w2 & E & _ & E2).
+      rewrite E in H. injection H as <- <-. split; [reflexivity|]. right. auto.
 Qed.
+
+Lemma inf_fmt q sd : fmt (inf tc q sd) = F_INF \/ fmt (inf tc q sd) = F_MORE.
+Proof. unfold inf; cbn. destruct (tc_miu tc <? len sd); auto. Qed.
+Lemma inf_fmt3 q sd : fmt (inf tc q sd) = F_INF \/ fmt (inf tc q sd) = F_MORE \/ fmt (inf tc q sd) = F_ACK.
+Proof. destruct (inf_fmt q sd); auto. Qed.
 
 Lemma awake_out t : t_out (awake t) = t_out t.
 Proof. unfold awake. destruct (t_pos t); reflexivity. Qed.
@@ -52,7 +62,7 @@ Lemma send_loop_spec resp rest n : forall p sd last acc t w out w',
   ((exists e, out = Err e /\ comm e) /\ Safe (t_out t) (acc ++ sd) (w_t w')
    \/ exists q, 0 <= q <= 3 /\ out = Ok ((q + 1) mod 4, inf tc q resp) /\ Sending tc (w_t w') q resp /\
                 t_app (w_t w') = rest /\ t_out (w_t w') = t_out t ++ [TOk (acc ++ sd)] /\ t_rtx (w_t w') = t_rtx t) /\
-  (w_script w = [] -> 1 <= timeout -> (exists y, out = Ok y) /\ w_script w' = []).
+  (Good (w_script w) -> (exists y, out = Ok y) /\ Good (w_script w')).
 Proof.
   induction n as [|n IH]; intros p sd last acc t w out w' HR Hw Happ Hne Hsd Hlen H.
   { destruct sd; [congruence | cbn in Hlen; lia]. }
@@ -96,9 +106,9 @@ Proof.
       destruct n; cbn [send_loop] in H; injection H as <- <-.
       all: split; [right; exists p; split; [exact Hp|]; split; [reflexivity|]; rewrite B; split; [exact HS|];
                    unfold t1, d; cbn; rewrite Hc; auto |
-                   intros Hs Hto; destruct (C Hs Hto ltac:(lia)) as [_ C2]; split; [eauto | exact C2]].
+                   intros Hs; destruct (C Hs (inf_fmt3 _ _)) as [_ C2]; split; [eauto | exact C2]].
     + injection H as <- <-. split; [left; split; [eauto | exact Hsafe]|].
-      intros Hs Hto. destruct (C Hs Hto ltac:(lia)) as [C1 _]. discriminate.
+      intros Hs. destruct (C Hs (inf_fmt3 _ _)) as [C1 _]. discriminate.
   - (* more chunks follow *)
     cbn [nonempty] in H.
     set (d := i_dep ic F_MORE p chunk) in *.
@@ -122,9 +132,9 @@ Proof.
       assert (Eacc : (acc ++ data d) ++ b' :: sd1 = acc ++ sd).
       { cbn [data d i_dep]. rewrite <- app_assoc, Hcs. reflexivity. }
       rewrite Eacc in X. split; [exact X|].
-      intros Hs Hto. destruct (C Hs Hto ltac:(unfold ack, F_ACK, F_NAK; cbn; lia)) as [_ C2]. apply Y; assumption.
+      intros Hs. destruct (C Hs ltac:(right; right; reflexivity)) as [_ C2]. apply Y; assumption.
     + injection H as <- <-. split; [left; split; [eauto | exact Hsafe]|].
-      intros Hs Hto. destruct (C Hs Hto ltac:(unfold ack, F_ACK, F_NAK; cbn; lia)) as [C1 _]. discriminate.
+      intros Hs. destruct (C Hs ltac:(right; right; reflexivity)) as [C1 _]. discriminate.
 Qed.
 
 (* ------------------------------------------------------------ the receive loop *)
@@ -134,7 +144,7 @@ Lemma recv_loop_spec resp n : forall q sd acc t w out w',
   ((exists e, out = Err e /\ comm e) /\ t_out (w_t w') = t_out t
    \/ exists p', out = Ok (p', resp) /\ Ready tc (w_t w') p' [] /\
                  t_app (w_t w') = t_app t /\ t_out (w_t w') = t_out t /\ t_rtx (w_t w') = t_rtx t) /\
-  (w_script w = [] -> 1 <= timeout -> (exists y, out = Ok y) /\ w_script w' = []).
+  (Good (w_script w) -> (exists y, out = Ok y) /\ Good (w_script w')).
 Proof.
   induction n as [|n IH]; intros q sd acc t w out w' HS Hw Hq Hacc Hlen H.
   { destruct HS as (_ & _ & _ & _ & Hne). destruct sd; [congruence | cbn in Hlen; lia]. }
@@ -168,9 +178,9 @@ Proof.
       { unfold inf. cbn [data]. rewrite <- app_assoc, len_drop_take by lia. exact Hacc. }
       destruct (IH p (drop (tc_miu tc) sd) _ t1 w1 out w' HS1 B ltac:(unfold p; lia) Hacc' Hlen' H) as (X & Y).
       split; [exact X|].
-      intros Hs Hto. destruct (C Hs Hto ltac:(lia)) as [_ C2]. apply Y; assumption.
+      intros Hs. destruct (C Hs (inf_fmt3 _ _)) as [_ C2]. apply Y; assumption.
     + injection H as <- <-. split; [left; split; [eauto | exact Hout]|].
-      intros Hs Hto. destruct (C Hs Hto ltac:(lia)) as [C1 _]. discriminate.
+      intros Hs. destruct (C Hs (inf_fmt3 _ _)) as [C1 _]. discriminate.
   - (* that was the last chunk *)
     change (F_INF =? F_MORE) with false in H. cbn [negb] in H. injection H as <- <-.
     assert (Hd : drop (tc_miu tc) sd = []) by (apply drop_nil_iff; lia).
@@ -178,7 +188,7 @@ Proof.
     split.
     + right. exists ((q + 1) mod 4). split; [reflexivity|]. rewrite Hw.
       split; [apply (sending_ready tc t q sd HS); lia | auto].
-    + intros Hs _. split; [eauto | exact Hs].
+    + intros Hs. split; [eauto | exact Hs].
 Qed.
 
 (* ------------------------------------------------------------ Initiator.exchange *)
@@ -189,7 +199,7 @@ Lemma exchange_spec n resp rest p x t w out w' :
   ((exists e, out = Err e /\ comm e) /\ Safe (t_out t) x (w_t w')
    \/ exists p', out = Ok (p', resp) /\ Ready tc (w_t w') p' [] /\
                  t_app (w_t w') = rest /\ t_out (w_t w') = t_out t ++ [TOk x] /\ t_rtx (w_t w') = t_rtx t) /\
-  (w_script w = [] -> 1 <= timeout -> (exists y, out = Ok y) /\ w_script w' = []).
+  (Good (w_script w) -> (exists y, out = Ok y) /\ Good (w_script w')).
 Proof.
   intros HR Hw Happ Hne Hx Hlx Hlr H. unfold ini_exchange in H.
   destruct (send_loop n fuel ic tc p x None timeout w) as [o1 w1] eqn:Es.
@@ -197,7 +207,7 @@ Proof.
   cbn [app] in A.
   destruct A as [((e & -> & He) & Hsafe)|(q & Hq & -> & HS & Ha & Ho & Hr)].
   - injection H as <- <-. split; [left; split; [eauto | exact Hsafe]|].
-    intros Hs Hto. destruct (B Hs Hto) as [[y Hy] _]. discriminate.
+    intros Hs. destruct (B Hs) as [[y Hy] _]. discriminate.
   - assert (Hf : (fmt (inf tc q resp) =? F_INF) || (fmt (inf tc q resp) =? F_MORE) = true).
     { unfold inf. cbn. destruct (tc_miu tc <? len resp); reflexivity. }
     rewrite Hf in H. cbn [negb] in H.
@@ -207,7 +217,7 @@ Proof.
     + destruct X as [((e & -> & He) & Hout)|(p' & -> & HR' & Ha' & Ho' & Hr')].
       * left. split; [eauto|]. right. rewrite Hout. exact Ho.
       * right. exists p'. split; [reflexivity|]. split; [exact HR'|]. rewrite Ha', Ho', Hr'. auto.
-    + intros Hs Hto. destruct (B Hs Hto) as [_ B2]. apply Y; assumption.
+    + intros Hs. destruct (B Hs) as [_ B2]. apply Y; assumption.
 Qed.
 
 (* ------------------------------------------------------------ the whole conversation *)
@@ -224,12 +234,12 @@ Lemma ini_app_spec n : forall P R p t w l w',
                 (t_out (w_t w') = t_out t ++ map TOk (firstn j P) \/ t_out (w_t w') = t_out t ++ map TOk (firstn (S j) P)))
    \/ (l = map IOk (firstn (length P) R) /\ t_out (w_t w') = t_out t ++ map TOk P /\
        exists p', Ready tc (w_t w') p' [])) /\
-  (w_script w = [] -> 1 <= timeout -> l = map IOk (firstn (length P) R) /\ w_script w' = []).
+  (Good (w_script w) -> l = map IOk (firstn (length P) R) /\ Good (w_script w')).
 Proof.
   induction P as [|x P IH]; intros R p t w l w' HR Hw Happ HnP HnR HfP HfR Hlen H; cbn [ini_app] in H.
   - injection H as <- <-. split.
     + right. cbn. rewrite app_nil_r, Hw. split; [reflexivity|]. split; [reflexivity|]. eauto.
-    + intros Hs _. cbn. auto.
+    + intros Hs. cbn. auto.
   - destruct R as [|resp R]; [cbn in Hlen; lia|].
     inversion HnP as [|? ? Hx HnP']; subst. inversion HnR as [|? ? Hr HnR']; subst.
     inversion HfP as [|? ? Hlx HfP']; subst. inversion HfR as [|? ? Hlr HfR']; subst.
@@ -239,7 +249,7 @@ Proof.
     + injection H as <- <-. split.
       * left. exists 0%nat, e. cbn [firstn map app length]. split; [lia|]. split; [reflexivity|]. split; [exact He|].
         destruct Hsafe as [Hs|Hs]; [left; rewrite Hs, app_nil_r; reflexivity | right; exact Hs].
-      * intros Hs Hto. destruct (B Hs Hto) as [[y Hy] _]. discriminate.
+      * intros Hs. destruct (B Hs) as [[y Hy] _]. discriminate.
     + destruct (ini_app n fuel ic tc p' P timeout w1) as [l2 w2] eqn:Ea. injection H as <- <-.
       cbn in Hlen.
       destruct (IH R p' (w_t w1) w1 l2 w2 HR' eq_refl Ha' HnP' HnR' HfP' HfR' ltac:(lia) Ea) as (X & Y).
@@ -249,7 +259,7 @@ Proof.
            rewrite Ho' in Hout. rewrite <- !app_assoc in Hout. exact Hout.
         -- right. cbn [firstn map app length]. split; [reflexivity|]. split; [|exact Hrd].
            rewrite Hout, Ho', <- app_assoc. reflexivity.
-      * intros Hs Hto. destruct (B Hs Hto) as [_ B2]. destruct (Y B2 Hto) as [-> Y2]. cbn. auto.
+      * intros Hs. destruct (B Hs) as [_ B2]. destruct (Y B2) as [-> Y2]. cbn. auto.
 Qed.
 End Safety.
 
@@ -368,7 +378,29 @@ Proof.
   destruct (ini_app n fuel ic tc 0 P timeout (mkw (tgt_init (app_of R)) [] 0 [])) as [ir w1] eqn:Ea.
   destruct (ini_app_spec ic tc fuel timeout H106 Hdid Hmt Hmi Hfuel n P R 0 (tgt_init (app_of R)) (mkw (tgt_init (app_of R)) [] 0 []) ir w1
               (ready_init tc (app_of R)) eq_refl eq_refl HnP HnR HfP HfR Hlen Ea) as (A & B).
-  destruct (B eq_refl Hto) as [-> _]. cbn [o_ini o_tgt]. split; [reflexivity|].
+  destruct (B (or_introl (conj eq_refl Hto))) as [-> _]. cbn [o_ini o_tgt]. split; [reflexivity|].
+  destruct (end_out ic tc H106 Hdid release w1) as (tail & Et & Htail). rewrite Et.
+  destruct A as [(j & e & Hj & E & _)|(_ & Ho & _)].
+  - exfalso. assert (Hin : In (IErr e) (map IOk (firstn (length P) R))).
+    { rewrite E. apply in_or_app. right. left. reflexivity. }
+    apply in_map_iff in Hin. destruct Hin as (x & Hx & _). discriminate.
+  - rewrite Ho. cbn. eauto.
+Qed.
+
+(* liveness under the stated budget: if every faulty round is followed by two fault free rounds (every lost or
+   corrupted frame is the only fault of its protocol step) the conversation completes with the exact data *)
+Theorem dep_single_fault_recovered_thm ic tc n fuel script P R timeout release :
+  valid_cfg ic tc -> Z.max 0 timeout < Z.of_nat fuel -> 2 <= timeout -> Sparse script ->
+  nonempty_all P -> nonempty_all R -> fits n P -> fits n R -> (length P <= length R)%nat ->
+  let o := conversation n fuel ic tc script P (app_of R) timeout release in
+  o_ini o = map IOk (firstn (length P) R) /\
+  exists ttail, o_tgt o = map TOk P ++ ttail /\ tail_ok ttail.
+Proof.
+  intros (H106 & Hdid & Hmt & Hmi) Hfuel Hto Hsp HnP HnR HfP HfR Hlen. cbv zeta. unfold conversation.
+  destruct (ini_app n fuel ic tc 0 P timeout (mkw (tgt_init (app_of R)) script 0 [])) as [ir w1] eqn:Ea.
+  destruct (ini_app_spec ic tc fuel timeout H106 Hdid Hmt Hmi Hfuel n P R 0 (tgt_init (app_of R)) (mkw (tgt_init (app_of R)) script 0 []) ir w1
+              (ready_init tc (app_of R)) eq_refl eq_refl HnP HnR HfP HfR Hlen Ea) as (A & B).
+  destruct (B (or_intror (conj Hsp Hto))) as [-> _]. cbn [o_ini o_tgt]. split; [reflexivity|].
   destruct (end_out ic tc H106 Hdid release w1) as (tail & Et & Htail). rewrite Et.
   destruct A as [(j & e & Hj & E & _)|(_ & Ho & _)].
   - exfalso. assert (Hin : In (IErr e) (map IOk (firstn (length P) R))).
